@@ -38,6 +38,31 @@ def ob_hittable(shape, G, budget_s=120):
     return symx.explore(run, budget_s=budget_s)
 
 
+def ob_hittable_floats(shape, G, budget_s=120):
+    """hittable(q) with IEEE-faithful floats: BPM, pause lengths and offset concrete, every position symbolic; any float() of a
+    position pins it (value choice), so code that routes beats through doubles (1/3 is not a double) is executed faithfully.
+    Stated cut: this family enumerates the positions it pins; it exists because 'floats are reals' hides double rounding."""
+    import z3
+    symx, mods = _setup()
+    symx.FLOAT_FAITHFUL = True
+    E = mods["simfile.timing.engine"]; Beat = mods["simfile.timing"].Beat
+
+    def run():
+        den = tc.time_unit_den((120,))
+        V = tc.sym_timing(shape, G, sym_bpm=False, bpm_values=(120,), den=den)
+        for n in V.get("ns", []) + V.get("nd", []):
+            symx.CTL.assume(n == den // 4)
+        symx.CTL.assume(V["noff"] == 0)
+        kq = symx.fresh_int("kq", 0, 2 * G)
+        eng = E.TimingEngine(tc.build_td(mods, V))
+        got = eng.hittable(Beat(symx.SymInt(kq), 48))
+        if isinstance(got, symx.SymBool):
+            got = bool(got)
+        exp = tc.oracle_hittable(V, kq)
+        return (exp if got else z3.Not(exp)), ("hittable_floats", shape, got)
+    return symx.explore(run, budget_s=budget_s)
+
+
 def ob_time_notes(shape, G, nnotes, option, budget_s=120):
     """time_notes: order kept, time == time_at(beat), fields unchanged, unhittable notes kept/dropped/faked per option"""
     import z3
@@ -107,6 +132,9 @@ def obligations(tier):
                                 bounds=f"shape {s}, 1 note: symbolic tick/column/player/keysound(or none), kind case split over {KINDS}"))
         for o in OPTIONS:
             obs.append(dict(name=f"time_notes(0, 0, 0, 1)/2notes/{o}", func="ob_time_notes", args=((0, 0, 0, 1), 6, 2, o), budget_s=b, bounds="one warp, 2 notes in (player, beat) order: the second note may lie earlier than the first when its player is higher"))
+        for s, g in (((0, 0, 0, 1), 6), ((0, 1, 0, 1), 4), ((0, 0, 1, 1), 4)):
+            obs.append(dict(name=f"hittable_floats{s}/G{g}", func="ob_hittable_floats", args=(s, g), budget_s=b,
+                            bounds=f"shape {s}, ticks 0..{g}, IEEE-faithful floats: positions pinned wherever the code converts a beat to a double; BPM 120, pauses 0.25 s"))
         # three warps in every arrangement (nested, overlapping, touching)
         obs.append(dict(name="hittable(0, 0, 0, 3)/G8", func="ob_hittable", args=((0, 0, 0, 3), 8), budget_s=b, bounds="three warps, ticks 0..8"))
         obs.append(dict(name="hittable(0, 1, 0, 3)/G5", func="ob_hittable", args=((0, 1, 0, 3), 5), budget_s=b, bounds="three warps and a stop, ticks 0..5"))
@@ -144,9 +172,11 @@ def replay(data):
     from simfile.notes.timed import time_notes, UnhittableNotes
     m = data["model"]; func = data["func"]; shape = tuple(data["args"][0])
     g = lambda n, d="0": Fraction(m.get(n, d))
+    if func == "ob_hittable_floats":
+        m = dict(m); m["b0"] = "120"; m["__den__"] = str(tc.time_unit_den((120,)))
     c = tc.model_timing(m, shape)
     td = tc.real_td(c)
-    if func == "ob_hittable":
+    if func in ("ob_hittable", "ob_hittable_floats"):
         q = Fraction(int(g("kq")), 48)
         got = TimingEngine(td).hittable(Beat(q)); exp = tc.exact_hittable(c, q)
         return got != exp, f"hittable({q}) = {got}, expected {exp}; timing={c}"
